@@ -500,6 +500,11 @@ def _blift(x):
     return t if _is_bool(t) else (t != 0)
 
 
+def uf(name, x, positive=False, monotone=False):
+    """Harness-defined uninterpreted real function applied to a Sym / number."""
+    return Sym(core.uf_app(name, _real(lift(x)), positive=positive, monotone=monotone))
+
+
 def is_sym(x):
     return isinstance(x, Sym)
 
